@@ -166,6 +166,7 @@ theorem C09_store_block_match (U : UnicodeOps) (s s' : Store.Store) (a b : Str) 
     · have : ¬ cifNormalize U b = cifNormalize U a := fun e => he e.symm
       simp [he, this]
 
+
 -- non-vacuity ------------------------------------------------------------------------------------------------------------
 /-- create `Ab` in the empty store, then look up `ab` and `AB` (toy folding: `A` ↦ `a`): both find the block created as `Ab` -/
 example : ∃ s' h, createBlock {} (some (apiName toyU false [65, 98])) = (s', .ok h) ∧
